@@ -347,16 +347,104 @@ func c07HashBinds(c *eng.Ctx, r *eng.Report) {
 	if !r.Anchor(gh != nil, rule, "(*Transaction).GenHash") {
 		return
 	}
+	// A field is bound when its value reaches a Write into the digest buffer through injective steps only:
+	// the []byte/int conversions and the decimal formatters. Anything else (case folding, trimming,
+	// truncation, parsing and re-printing) maps several field values to one digest.
 	hashed := map[string]bool{}
-	for _, b := range gh.Blocks {
-		for _, in := range b.Instrs {
-			if fa, ok := in.(*ssa.FieldAddr); ok {
-				if t, f := eng.FieldOf(fa); t == "middleware/types.Transaction" {
+	lossy := map[string]string{}
+	verbatimAt := map[string][]ssa.Instruction{}
+	lossyAt := map[string][]ssa.Instruction{}
+	var cur ssa.Instruction
+	var trace func(v ssa.Value, via string, d int)
+	trace = func(v ssa.Value, via string, d int) {
+		if v == nil || d > 8 {
+			return
+		}
+		switch x := v.(type) {
+		case *ssa.Convert:
+			trace(x.X, via, d+1)
+		case *ssa.ChangeType:
+			trace(x.X, via, d+1)
+		case *ssa.UnOp:
+			if f := fieldLoaded(x); f != "" {
+				if via == "" {
 					hashed[f] = true
+					verbatimAt[f] = append(verbatimAt[f], cur)
+				} else {
+					if lossy[f] == "" {
+						lossy[f] = via
+					}
+					lossyAt[f] = append(lossyAt[f], cur)
 				}
+			}
+		case *ssa.Call:
+			nm := eng.CallName(&x.Call)
+			switch nm {
+			case "strconv.FormatUint", "strconv.Itoa", "strconv.FormatInt":
+			default:
+				if via == "" {
+					via = nm
+				}
+			}
+			for _, a := range x.Call.Args {
+				trace(a, via, d+1)
+			}
+		case *ssa.BinOp:
+			if via == "" {
+				via = "operator " + x.Op.String()
+			}
+			trace(x.X, via, d+1)
+			trace(x.Y, via, d+1)
+		case *ssa.Slice:
+			if via == "" {
+				via = "a slice expression"
+			}
+			trace(x.X, via, d+1)
+		}
+	}
+	for _, st := range eng.Sites(gh) {
+		// a sink is any call that is handed the digest buffer / hash state; what else it is handed goes into the digest
+		args := st.Common().Args
+		sink := -1
+		for i, a := range args {
+			if t := a.Type().String(); strings.Contains(t, "bytes.Buffer") || strings.Contains(t, "hash.Hash") || strings.Contains(t, "strings.Builder") {
+				sink = i
+				break
+			}
+		}
+		if sink < 0 || strings.HasSuffix(st.Name(), ".Bytes") || strings.HasSuffix(st.Name(), ".String") {
+			continue
+		}
+		cur = st.Instr
+		for i, a := range args {
+			if i != sink {
+				trace(a, "", 0)
 			}
 		}
 	}
+	var lf []string
+	for f := range lossy {
+		lf = append(lf, f)
+	}
+	sort.Strings(lf)
+	for _, f := range lf {
+		// a transformed copy next to the verbatim one is harmless; a path on which only the transformed copy is written is not
+		covered := true
+		for _, l := range lossyAt[f] {
+			ok := false
+			for _, v := range verbatimAt[f] {
+				if eng.Dominates(v, l) {
+					ok = true
+				}
+			}
+			covered = covered && ok
+		}
+		if !covered {
+			hashed[f] = false
+			r.Fail(rule, "genhash-verbatim:Transaction."+f, c.Pos(gh.Pos()), "GenHash writes Transaction."+f+" into the digest only after passing it through "+lossy[f]+", which is not one of the injective steps (conversion, decimal formatting): different values of the field give the same hash, so the field can be altered in transit without invalidating hash or signature")
+		}
+	}
+	r.Check(len(hashed) >= 6, rule, "genhash-verbatim:fields", c.Pos(gh.Pos()), fmt.Sprintf("%d fields reach the digest verbatim", len(hashed)), fmt.Sprintf("only %d Transaction fields reach the digest buffer of GenHash through injective steps (8 expected)", len(hashed)))
 	cone := c01Cone(c, r, rule)
 	if cone == nil {
 		return
